@@ -27,7 +27,8 @@ ASSUMPTIONS = [
 ]
 
 COLS = ["tb.id", "tb.n", "tb.s", "tb.t"]
-IDX = {"tb.id": 0, "tb.n": 1, "tb.s": 2, "tb.t": 3, "id": 0, "n": 1, "s": 2, "t": 3}
+# (_n and _s are two more columns of the table holding copies of n and s: column names may start with an underscore)
+IDX = {"tb.id": 0, "tb.n": 1, "tb.s": 2, "tb.t": 3, "id": 0, "n": 1, "s": 2, "t": 3, "_n": 1, "_s": 2}
 STATIC = ["tb.n = tb.id", "tb.s = tb.t", "tb.n IS NULL", "1", "tb.n < tb.id", "tb.s IS NOT NULL",
           # static SQL text with literals whose blanks matter (the text is the caller's: it goes to the database verbatim)
           "tb.s = 'x  y'", "tb.t = 'a\tb'", "tb.s != 'p\u00a0q'", "tb.s   =   'x y'", "(tb.t = 'a b'\n  OR tb.t = 'x  y')"]
@@ -304,8 +305,8 @@ def evaluate(case):
     # real
     real = sqlite3.connect(":memory:")
     try:
-        real.execute("CREATE TABLE tb (id INTEGER NOT NULL, n INTEGER, s TEXT, t TEXT)")
-        real.executemany("INSERT INTO tb VALUES (?,?,?,?)", rows)
+        real.execute("CREATE TABLE tb (id INTEGER NOT NULL, n INTEGER, s TEXT, t TEXT, _n INTEGER, _s TEXT)")
+        real.executemany("INSERT INTO tb VALUES (?,?,?,?,?,?)", [tuple(r) + (r[1], r[2]) for r in rows])
         log = _Log()
         conn = make_conn(real, log, bool(case.get("percent")))
         ctor_order = {"asc": "tb.id", "desc": "tb.id DESC"}.get(order) if case.get("order_in_ctor") else None
@@ -484,7 +485,7 @@ def st_operand(col, nullable=True):
 
 
 def st_colval(col, nullable=True):
-    base = st_int() if col in ("tb.id", "tb.n", "id", "n") else st_str()
+    base = st_int() if col in ("tb.id", "tb.n", "id", "n", "_n") else st_str()
     return (base | st.none()) if nullable else base
 
 
@@ -501,7 +502,7 @@ def st_cond(draw, depth=0):
         subs = draw(st.lists(st_cond(depth + 1), max_size=3))
         kws = {}
         if draw(st.integers(0, 2)) == 0:
-            k = draw(st.sampled_from(["n", "s", "t"]))
+            k = draw(st.sampled_from(["n", "s", "t", "_n", "_s"]))
             kws[k] = draw(st_colval(k))
         return ["or", subs, kws]
     col = draw(st.sampled_from(COLS))
@@ -574,7 +575,7 @@ def st_case(draw, max_conds=4, with_kwargs=True):
     for c in conds:
         relate(c)
     kwargs = {}
-    for k in draw(st.lists(st.sampled_from(["n", "s", "t", "id"]), max_size=2 if with_kwargs else 0, unique=True)):
+    for k in draw(st.lists(st.sampled_from(["n", "s", "t", "id", "_n", "_s"]), max_size=2 if with_kwargs else 0, unique=True)):
         kwargs[k] = draw(st.one_of(st_colval(k), st.lists(st_colval(k), max_size=3).map(lambda x: ["list", x])))
     return {"rows": rows, "conds": conds, "kwargs": kwargs,
             "order": draw(st.sampled_from([None, "asc", "desc"])), "order_in_ctor": draw(st.booleans()),
